@@ -182,7 +182,47 @@ def _classify_job(n, c0, c1, timeout):
     return e2.explore(run, timeout=timeout, max_failures=3)
 
 
+def many_cells(report):
+    """concrete (labelled): workbooks with many suspicious cells on two sheets - the exception lists every one of them exactly once"""
+    import time
+    from excel2pycl import Parser
+    from excel2pycl.src.exceptions import E2PyclSafetyException
+    from openpyxl.utils import get_column_letter
+    t0 = time.time()
+    d = tempfile.mkdtemp(prefix='c19m_', dir=build.scratch_dir(os.path.join(os.environ.get('VERIF_PID', 'misc'), 'c19')))
+    bad = None
+    for n in (1, 19, 20, 21, 25, 64, 130):
+        sheets = [{(0, 0): 1, (1, 0): 'x'}, {(0, 0): 2}]
+        expect = []
+        for i in range(n):
+            s_, c, r = i % 2, 2 + (i // 2) % 5, (i // 10)
+            sheets[s_][(c, r)] = SUSP[i % len(SUSP)]
+            expect.append((s_, c, r))
+            sheets[s_][(8, r)] = INNO[i % len(INNO)]
+        p = build.write_xlsx(os.path.join(d, 'w.xlsx'), [(TITLES[i], sheets[i]) for i in range(2)])
+        try:
+            Parser().set_excel_file_path(p).get_translation()
+            bad = f'{n} suspicious cells: the workbook was not rejected'
+        except E2PyclSafetyException as e:
+            keys = dict(e.suspicious_cells)
+            missing = [f'{TITLES[s_]}!{get_column_letter(c + 1)}{r + 1}' for (s_, c, r) in expect
+                       if len([k for k in keys if TITLES[s_] in k and k.replace("'", '').replace('!', '').endswith(get_column_letter(c + 1) + str(r + 1))]) != 1]
+            if missing or len(keys) != n:
+                bad = f'{n} suspicious cells planted, {len(keys)} listed; not listed exactly once: {missing[:4]}'
+        except Exception as e:
+            bad = f'{n} suspicious cells: {type(e).__name__}: {e}'
+        if bad:
+            break
+    shutil.rmtree(d, ignore_errors=True)
+    if bad:
+        report.condition('place.many_cells', 'concrete', 'violated', time.time() - t0, 7, bad)
+        report.violation('place.many_cells', bad.split(':')[0], bad)
+    else:
+        report.condition('place.many_cells', 'concrete', 'holds', time.time() - t0, 7, 'workbooks with 1..130 suspicious cells: every one listed exactly once (concrete probe, not a solver verdict)')
+
+
 def run(report, tier, seed):
+    many_cells(report)
     # 1. classifier: exhaustive over the class-representative alphabet, enumerated by z3, executed natively
     maxlen = 5 if tier == 'quick' else 6
     to0 = 240 if tier == 'quick' else 1200
